@@ -2,8 +2,10 @@ package main
 
 import (
 	"fmt"
+	"go/ast"
 	"go/token"
 	"go/types"
+	"os"
 	"regexp"
 	"sort"
 	"strings"
@@ -658,6 +660,16 @@ func (f *Frame) loopBackEdge(from, head *ssa.BasicBlock) {
 			e.oblige(fmt.Sprintf("loop%d.preserved", li.ordinal), cl.Label, c, g, "loop invariant preserved: "+cl.Src, head.Instrs[0].Pos(), cl.Props)
 			if strings.HasPrefix(cl.Label, "cut.") {
 				e.assume(c, g) // cut: available to the clauses after it
+			}
+		}
+	}
+	if f.fc != nil {
+		for _, cl := range f.fc.BackEdge[li.ordinal] {
+			env := f.contractEnv(f.out[from], f.entry)
+			env.local = func(name string) *Value { v, _ := f.localLatest(name, from, li, f.out[from]); return v }
+			env.defined = func(name string) string { _, d := f.localLatest(name, from, li, f.out[from]); return d }
+			for _, g := range env.evalSplit(cl.Expr) {
+				e.oblige(fmt.Sprintf("loop%d.backedge", li.ordinal), cl.Label, c, g, "holds whenever the loop body is left for the next iteration: "+cl.Src, head.Instrs[0].Pos(), cl.Props)
 			}
 		}
 	}
@@ -1483,3 +1495,105 @@ func (f *Frame) runDefers() {
 	}
 }
 
+
+// localLatest resolves a source-level local name on the back edge from `from` of loop li: the value of its most recent
+// definition executed on the path taken (definitions outside the loop count as executed; among the definitions inside
+// the loop body a later one, in block order, overrides an earlier one when its block was reached in this iteration).
+// The second result is the condition under which any definition inside the loop body was executed in this iteration
+// ("true" for a definition that dominates the back edge).
+func (f *Frame) localLatest(name string, from *ssa.BasicBlock, li *loopInfo, st *State) (*Value, string) {
+	type cand struct {
+		v     ssa.Value
+		blk   *ssa.BasicBlock
+		order int
+		addr  bool
+	}
+	idx := map[*ssa.BasicBlock]int{}
+	for i, b := range f.order {
+		idx[b] = i
+	}
+	var cs []cand
+	var later types.Type
+	anc := f.e.ancestorsOf(from)
+	seen := map[ssa.Value]bool{}
+	for _, blk := range f.fn.Blocks {
+		for k, ins := range blk.Instrs {
+			d, ok := ins.(*ssa.DebugRef)
+			if !ok {
+				continue
+			}
+			id, ok := d.Expr.(*ast.Ident)
+			if !ok || id.Name != name || seen[d.X] {
+				continue
+			}
+			if _, defd := f.vals[d.X]; !defd {
+				if _, isC := d.X.(*ssa.Const); !isC {
+					if _, isP := d.X.(*ssa.Parameter); !isP {
+						if _, isF := d.X.(*ssa.FreeVar); !isF {
+							// a definition in a block that comes later in the iteration: not executed on any path to this back edge
+							if later == nil && !d.IsAddr {
+								later = d.X.Type()
+							}
+							continue
+						}
+					}
+				}
+			}
+			inLoop := li.body[blk] || blk == li.head
+			if !inLoop && !blk.Dominates(from) {
+				continue
+			}
+			if _, reached := f.reach[blk]; inLoop && !reached {
+				continue
+			}
+			if inLoop && !anc[blk] {
+				// a definition on another branch: not executed on any path to this back edge
+				if later == nil && !d.IsAddr {
+					later = d.X.Type()
+				}
+				continue
+			}
+			seen[d.X] = true
+			cs = append(cs, cand{d.X, blk, idx[blk]*100000 + k, d.IsAddr})
+		}
+	}
+	if os.Getenv("GOVC_DEBUG_LATEST") != "" {
+		fmt.Fprintf(os.Stderr, "localLatest %s from %s: %d candidates, body=%d\n", name, from, len(cs), len(li.body))
+	}
+	if len(cs) == 0 {
+		if later != nil {
+			return f.freshOf(f.id+"."+name+".undef", later), "false"
+		}
+		return nil, "false"
+	}
+	sort.Slice(cs, func(i, j int) bool { return cs[i].order < cs[j].order })
+	var cur *Value
+	def := "false"
+	for _, c := range cs {
+		v := f.val(c.v)
+		if c.addr {
+			// an addressable variable (captured, or its address is taken): its cell holds the current value
+			return f.e.load(st, f.e.ptrLoc(v)), "true"
+		}
+		inLoop := li.body[c.blk] || c.blk == li.head
+		cond := "true"
+		if inLoop && !c.blk.Dominates(from) {
+			cond = f.reach[c.blk]
+		}
+		if inLoop {
+			def = or(def, cond)
+		}
+		if cur == nil || cond == "true" {
+			cur = v
+			continue
+		}
+		if cur.Sort != v.Sort {
+			continue
+		}
+		m := *v
+		m.T = ite(cond, v.T, cur.T)
+		m.Loc = nil
+		cur = &m
+	}
+	return cur, def
+}
